@@ -725,3 +725,72 @@ def gen_file(rng, doc, o=None):
         o2.types = False
         default = gen_cnf(rng, doc, o2, 0, env, maxlines=2)
     return {"lets": flets, "rules": rules, "default": default}
+
+
+# ------------------------------------------------------------------ AST traversal helpers
+
+def iter_cnfs(f):
+    """yield (kind, cnf list object) for every CNF container of a file (mutable references)"""
+    def from_query(q):
+        for p in q:
+            if p[0] == "filter":
+                yield ("filter", p[1])
+                yield from from_cnf(p[1])
+
+    def from_rhs(r):
+        if r is None:
+            return
+        if r[0] == "query":
+            yield from from_query(r[1])
+        elif r[0] == "fn":
+            for a in r[2]:
+                yield from from_rhs(a)
+
+    def from_lets(lets):
+        for l in lets or []:
+            yield from from_rhs(l[1])
+
+    def from_cnf(cnf):
+        for line in cnf:
+            for alt in line:
+                t = alt["t"]
+                if t == "clause":
+                    yield from from_query(alt["q"])
+                    yield from from_rhs(alt.get("rhs"))
+                elif t == "block":
+                    yield from from_query(alt["q"])
+                    yield from from_lets(alt.get("lets"))
+                    yield ("block-body", alt["body"])
+                    yield from from_cnf(alt["body"])
+                elif t == "when":
+                    yield ("when-cond", alt["cond"])
+                    yield from from_cnf(alt["cond"])
+                    yield from from_lets(alt.get("lets"))
+                    yield ("when-body", alt["body"])
+                    yield from from_cnf(alt["body"])
+                elif t == "type":
+                    if alt.get("cond"):
+                        yield ("type-cond", alt["cond"])
+                        yield from from_cnf(alt["cond"])
+                    yield from from_lets(alt.get("lets"))
+                    yield ("type-body", alt["body"])
+                    yield from from_cnf(alt["body"])
+                elif t == "call":
+                    for a in alt["args"]:
+                        yield from from_rhs(a)
+
+    yield from from_lets(f.get("lets"))
+    if f.get("default"):
+        yield ("default", f["default"])
+        yield from from_cnf(f["default"])
+    for r in f["rules"]:
+        if r.get("when"):
+            yield ("rule-when", r["when"])
+            yield from from_cnf(r["when"])
+        yield from from_lets(r.get("lets"))
+        yield ("rule-body", r["body"])
+        yield from from_cnf(r["body"])
+
+
+def clone(x):
+    return json.loads(json.dumps(x))
